@@ -42,6 +42,7 @@ MIN_REACH = {
     "aggregate_figures_with_x_as_a_data_variable": {"quick": 15, "thorough": 250},
     "heat_maps_drawn_under_a_non_default_mesh_shading_setting": {"quick": 8, "thorough": 120},
     "line_figures_drawn_under_a_style_cycling_line_styles": {"quick": 50, "thorough": 700},
+    "histograms_whose_number_of_bins_is_a_numpy_integer": {"quick": 8, "thorough": 120},
     "histograms_compared": {"quick": 120, "thorough": 1200},
     "heatmap_cells_compared": {"quick": 300, "thorough": 5000},
     "slices_holding_infinite_values": {"quick": 30, "thorough": 500},
@@ -49,7 +50,7 @@ MIN_REACH = {
 }
 TIME_BUDGET = {"quick": 500, "thorough": 3400}
 PROPS = ["color", "hue", "marker", "markersize", "markeredgecolor", "linewidth", "linestyle", "row", "col"]
-DIMS = ["a", "b", "c", "d"]
+DIMS = ["a", "seed", "c", "rep"]      # (names of one and of several characters)
 MODES = ["lines", "lines", "lines", "lines", "aggregate", "aggregate", "hist", "heatmap"]
 
 
@@ -318,6 +319,10 @@ def run_case(ctx, case):
                     kw["bins"] = [-6, -2, -1, -0.5, 0, 0.5, 1, 2, 6]
                 elif case["bins"] is not None:
                     kw["bins"] = case["bins"]
+                    if case["dseed"] % 3 == 1:
+                        # the number of bins as a numpy integer (computed from the data: np.sqrt(n).astype(int), len(...) of an array)
+                        kw["bins"] = np.int64(case["bins"])
+                        ctx.count("histograms_whose_number_of_bins_is_a_numpy_integer")
                 kw["bins_density"] = case["density"]
                 fig, axs = xyzpy.infiniplot(ds, "v", show_and_close=False, **kw)
             else:
@@ -587,7 +592,7 @@ def _bins(case, work, kw):
     v = np.asarray(work["v"].values, dtype=float)
     v = v[np.isfinite(v)]
     b = kw.get("bins")
-    if b is None or isinstance(b, int):
+    if b is None or isinstance(b, (int, np.integer)):
         if b is None:
             unm_size = 1
             mapped = set(_flat(case["mapping"].values()))
